@@ -8,6 +8,10 @@
 From Scrapli Require Import Bytes BytesLemmas Regex PlatformTypes Generated Channel Network Session ChanTrace.
 Open Scope N_scope.
 
+(* the matching machinery stays opaque in the general proofs *)
+#[local] Opaque rx_match rx_find rx_remove_all rx_search cond_holds process_out contains ssh_error
+  roughly_contains process_read_buf to_lower print_dec.
+
 (* ---------- small facts on byte strings ---------- *)
 Lemma beqb_true_eq (a b : bytes) : beqb a b = true -> a = b.
 Proof.
@@ -720,7 +724,7 @@ Proof. apply fw_auth_telnet_loop. Qed.
 
 Lemma fw_channel_open cfg ap a : fails_with id (channel_open cfg ap a).
 Proof.
-  destruct a; simpl.
+  destruct a; unfold channel_open.
   - constructor.
   - apply fails_with_bind; [apply fw_auth_ssh|]. intros [|x l]; repeat constructor.
   - apply fails_with_bind; [apply fw_auth_telnet|]. intros [|x l]; repeat constructor.
@@ -734,17 +738,38 @@ Qed.
 Lemma fw_deescalate net target : fails_with id (deescalate net target).
 Proof. unfold deescalate. destruct (lookup_level _ _); [apply fw_send_input|constructor]. Qed.
 
+Lemma acquire_loop_S f net cached target count :
+  acquire_loop (S f) net cached target count =
+  bind (get_prompt (n_chan net)) (fun prompt =>
+    match process_acquire net cached target prompt with
+    | PAErr => Fail EPrivilege
+    | PAPanic => Fail EOperation
+    | PAOk ANone cur => Note TAG_CUR cur (Ret cur)
+    | PAOk a cur =>
+        Note TAG_CUR cur
+          (bind (match a with
+                 | AEscalate next => escalate net next
+                 | ADeescalate c => deescalate net c
+                 | ANone => Ret []
+                 end)
+                (fun _ =>
+                   let count' := S count in
+                   if Nat.ltb (2 * length (n_levels net)) count' then Fail EPrivilege
+                   else acquire_loop f net cur target count'))
+    end).
+Proof. reflexivity. Qed.
+
 Lemma fw_acquire_loop net target : forall fuel cached count, fails_with id (acquire_loop fuel net cached target count).
 Proof.
-  induction fuel as [|f IH]; intros cached count; simpl; [constructor|].
+  induction fuel as [|f IH]; intros cached count; [constructor|]. rewrite acquire_loop_S.
   apply fails_with_bind; [apply fw_get_prompt|]. intros prompt.
   destruct (process_acquire net cached target prompt) as [a cur| |]; try constructor.
   destruct a.
   - repeat constructor.
-  - constructor. apply fails_with_bind; [apply fw_escalate|]. intros _.
-    destruct (Nat.ltb _ _); [constructor | apply IH].
-  - constructor. apply fails_with_bind; [apply fw_deescalate|]. intros _.
-    destruct (Nat.ltb _ _); [constructor | apply IH].
+  - constructor. apply fails_with_bind; [apply fw_escalate|]. intros _. cbv zeta.
+    destruct (Nat.ltb (2 * length (n_levels net)) (S count)); [constructor | apply IH].
+  - constructor. apply fails_with_bind; [apply fw_deescalate|]. intros _. cbv zeta.
+    destruct (Nat.ltb (2 * length (n_levels net)) (S count)); [constructor | apply IH].
 Qed.
 Lemma fw_acquire_priv net cached target : fails_with id (acquire_priv net cached target).
 Proof. unfold acquire_priv. destruct (lookup_level _ _); [apply fw_acquire_loop | constructor]. Qed.
@@ -851,4 +876,863 @@ Proof.
       + rewrite H1 in Hc. simpl in Hc. pinv Hc. destruct Hin as [Hin|[]]. inversion Hin; subst.
         split; auto. exists []; auto. }
   apply (G _ (fw_acquire_default net cached) t r Hc Hin).
+Qed.
+
+(* ====================================================================== *)
+(* B.  C11 — redaction is noninterference                                  *)
+(* ====================================================================== *)
+
+Theorem sim_trace : forall cfg R (p q : prog R) t,
+  sim p q -> ptrace cfg p t ->
+  exists t', ptrace cfg q t' /\ visible t' = visible t /\ length t' = length t.
+Proof.
+  intros cfg R p q t Hs Hp. revert q Hs.
+  induction Hp; intros q Hs; [exists []; repeat split; constructor | ..];
+    inversion Hs; subst;
+    match goal with
+    | Hk : sim ?k ?k', IH : forall q, sim ?k q -> _ |- _ => destruct (IH _ Hk) as [t' [H2' [H3' H4']]]
+    | Hk : forall rb, sim (?k rb) _, IH : forall q, sim (?k ?rb) q -> _ |- _ =>
+        destruct (IH _ (Hk rb)) as [t' [H2' [H3' H4']]]
+    end.
+  - exists (OWrite b' true :: t'). repeat split; [constructor; auto | simpl; f_equal; auto | simpl; auto].
+  - exists (OWrite b false :: t'). repeat split; [constructor; auto | simpl; f_equal; auto | simpl; auto].
+  - exists (ONote tg d :: t'). repeat split; [constructor; auto | simpl; f_equal; auto | simpl; auto].
+  - exists (ORequeue b :: t'). repeat split; [constructor; auto | simpl; auto | simpl; auto].
+  - exists (ORead c rb :: t'). repeat split; [constructor; auto | simpl; auto | simpl; auto].
+  - exists (OErr c e :: t'). repeat split; [apply pt_err; auto | simpl; auto | simpl; auto].
+Qed.
+
+Lemma sim_refl {R} (p : prog R) : sim p p.
+Proof. induction p; try (constructor; auto; fail). destruct redacted; constructor; auto. Qed.
+
+Lemma sim_sym {R} (p q : prog R) : sim p q -> sim q p.
+Proof. induction 1; constructor; auto. Qed.
+
+Lemma sim_trans {R} (p q r : prog R) : sim p q -> sim q r -> sim p r.
+Proof.
+  intros H; revert r; induction H; intros r0 H'; inversion H'; subst; constructor; auto.
+Qed.
+
+Lemma sim_bind {A B} (p q : prog A) (f g : A -> prog B) :
+  sim p q -> (forall a, sim (f a) (g a)) -> sim (bind p f) (bind q g).
+Proof. intros H Hf. induction H; simpl; auto; constructor; auto. Qed.
+
+Lemma sim_catch {A} (p q : prog A) (f g : err -> prog A) :
+  sim p q -> (forall e, sim (f e) (g e)) -> sim (catch p f) (catch q g).
+Proof. intros H Hf. induction H; simpl; auto; constructor; auto. Qed.
+
+Definition redact_log (l : list (bytes * bool)) : list bytes :=
+  map (fun w : bytes * bool => if snd w then redacted else fst w) l.
+
+Lemma skip_notes_sim {R} (p q : prog R) : sim p q -> forall n,
+  sim (fst (skip_notes R p n)) (fst (skip_notes R q n))
+  /\ snd (skip_notes R p n) = snd (skip_notes R q n).
+Proof.
+  induction 1; intros n; simpl; try (split; [constructor; auto | reflexivity]).
+  apply IHsim.
+Qed.
+
+Section SimRun.
+  Variable cfg : chan_cfg.
+  Variable R : Type.
+
+  Definition sim_sys (a b : @sys script R) : Prop :=
+    s_dev a = s_dev b /\ s_pending a = s_pending b /\ s_queue a = s_queue b /\ s_acc a = s_acc b
+    /\ s_reader a = s_reader b /\ redact_log (s_wlog a) = redact_log (s_wlog b)
+    /\ s_notes a = s_notes b /\ sim (s_pc a) (s_pc b).
+
+  Lemma set_pc_sim d pe qu ac (p q p0 q0 : prog R) wl wl' nt rd :
+    sim p q -> redact_log wl = redact_log wl' ->
+    sim_sys (set_pc (mkSys d pe qu ac p0 wl nt rd) p) (set_pc (mkSys d pe qu ac q0 wl' nt rd) q).
+  Proof.
+    intros Hs Hw. unfold set_pc. simpl.
+    destruct (skip_notes_sim p q Hs nt) as [H1 H2].
+    destruct (skip_notes R p nt) as [p' n']. destruct (skip_notes R q nt) as [q' n'']. simpl in *. subst.
+    repeat split; auto.
+  Qed.
+
+  Lemma step_sim a b e : sim_sys a b -> sim_sys (step sfeed cfg a e) (step sfeed cfg b e).
+  Proof.
+    destruct a as [d pe qu ac p wl nt rd]. destruct b as [d' pe' qu' ac' q wl' nt' rd'].
+    intros [H1 [H2 [H3 [H4 [H5 [H6 [H7 H8]]]]]]]. simpl in *. subst d' pe' qu' ac' rd' nt'.
+    assert (Hsame : sim_sys (mkSys d pe qu ac p wl nt rd) (mkSys d pe qu ac q wl' nt rd))
+      by (repeat split; auto).
+    destruct e; simpl.
+    - destruct rd; auto. destruct pe; auto. repeat split; auto.
+    - inversion H8; subst; auto.
+      + destruct d as [|x d]; simpl; apply set_pc_sim; auto; unfold redact_log in *;
+          rewrite !map_app, H6; reflexivity.
+      + destruct d as [|x d]; simpl; apply set_pc_sim; auto; unfold redact_log in *;
+          rewrite !map_app, H6; reflexivity.
+      + apply set_pc_sim; auto.
+      + destruct rd.
+        * destruct qu as [|chunk q']; auto.
+          destruct (cond_holds cfg c (ac ++ chunk)).
+          -- apply set_pc_sim; auto.
+          -- repeat split; auto.
+        * apply set_pc_sim; auto.
+        * apply set_pc_sim; auto.
+    - inversion H8; subst; auto. apply set_pc_sim; auto.
+    - repeat split; auto.
+    - destruct rd; auto. repeat split; auto.
+  Qed.
+
+  Lemma run_sim sched : forall a b, sim_sys a b -> sim_sys (run sfeed cfg sched a) (run sfeed cfg sched b).
+  Proof. induction sched as [|e l IH]; simpl; intros a b H; auto. apply IH, step_sim, H. Qed.
+
+  Lemma init_sim (p q : prog R) script start : sim p q -> sim_sys (init_sys script start p) (init_sys script start q).
+  Proof. intros H. unfold init_sys. apply set_pc_sim; auto. Qed.
+End SimRun.
+
+Theorem sim_run_sfeed : forall cfg R (p q : prog R) script start sched,
+  sim p q ->
+  let a := run sfeed cfg sched (init_sys script start p) in
+  let b := run sfeed cfg sched (init_sys script start q) in
+  map (fun w : bytes * bool => if snd w then redacted else fst w) (s_wlog a)
+  = map (fun w : bytes * bool => if snd w then redacted else fst w) (s_wlog b)
+  /\ s_notes a = s_notes b /\ sim (s_pc a) (s_pc b) /\ s_queue a = s_queue b /\ s_pending a = s_pending b.
+Proof.
+  intros cfg R p q script start sched Hs a b.
+  destruct (run_sim cfg R sched _ _ (init_sim R p q script start Hs)) as [H1 [H2 [H3 [H4 [H5 [H6 [H7 H8]]]]]]].
+  fold a in H1, H2, H3, H4, H5, H6, H7, H8. fold b in H1, H2, H3, H4, H5, H6, H7, H8.
+  repeat split; auto.
+Qed.
+
+(* ---------- instances ---------- *)
+
+Lemma sim_until_echo {R} o input (k k' : bytes -> prog R) :
+  (forall rb, sim (k rb) (k' rb)) -> sim (until_echo o input k) (until_echo o input k').
+Proof.
+  intros H. unfold until_echo. destruct input; destruct (o_exact o); auto; constructor; auto; intros; apply sim_refl.
+Qed.
+
+(* events that agree except on the inputs of hidden events *)
+Definition ev_agree (e1 e2 : ievent) : Prop :=
+  ev_response e1 = ev_response e2 /\ ev_hidden e1 = ev_hidden e2
+  /\ (ev_hidden e1 = false -> ev_input e1 = ev_input e2).
+
+(* [interactive_loop] never reads an echo for a hidden event (its match on [ev_hidden]), so no
+   further hypothesis is needed *)
+Lemma sim_interactive_loop cfg o : forall evs1 evs2 acc,
+  Forall2 ev_agree evs1 evs2 -> sim (interactive_loop cfg o evs1 acc) (interactive_loop cfg o evs2 acc).
+Proof.
+  induction evs1 as [|e1 r1 IH]; intros evs2 acc H; inversion H; subst; [apply sim_refl|].
+  destruct H2 as [Hr [Hh Hi]]. cbn [interactive_loop]. rewrite <- Hr, <- Hh.
+  assert (K : forall nb, sim
+     (Write (c_ret cfg) false
+        (Until (CAnyPrompt (o_complete o ++ [match ev_response e1 with Some r => r | None => c_prompt cfg end]))
+           (fun pb => match r1 with
+                      | [] => Ret (process_out cfg ((acc ++ nb) ++ pb) false)
+                      | _ :: _ => if existsb (fun p => rx_match p pb) (o_complete o)
+                                  then Ret (process_out cfg ((acc ++ nb) ++ pb) false)
+                                  else interactive_loop cfg o r1 ((acc ++ nb) ++ pb)
+                      end) Fail))
+     (Write (c_ret cfg) false
+        (Until (CAnyPrompt (o_complete o ++ [match ev_response e1 with Some r => r | None => c_prompt cfg end]))
+           (fun pb => match l' with
+                      | [] => Ret (process_out cfg ((acc ++ nb) ++ pb) false)
+                      | _ :: _ => if existsb (fun p => rx_match p pb) (o_complete o)
+                                  then Ret (process_out cfg ((acc ++ nb) ++ pb) false)
+                                  else interactive_loop cfg o l' ((acc ++ nb) ++ pb)
+                      end) Fail))).
+  { intros nb. constructor. constructor; [|intros; apply sim_refl]. intros pb.
+    inversion H4; subst; [apply sim_refl|].
+    destruct (existsb _ _); [apply sim_refl|]. apply IH. auto. }
+  destruct (ev_hidden e1) eqn:Eh.
+  - constructor. destruct (ev_response e1); apply K.
+  - rewrite <- (Hi eq_refl). constructor. destruct (ev_response e1); [apply sim_until_echo|]; apply K.
+Qed.
+
+Theorem sim_send_interactive : forall cfg evs1 evs2 o,
+  Forall2 ev_agree evs1 evs2 -> sim (send_interactive cfg evs1 o) (send_interactive cfg evs2 o).
+Proof. intros. apply sim_interactive_loop; auto. Qed.
+
+Definition with_secondary (net : netcfg) (s : bytes) : netcfg :=
+  mkNet (n_levels net) (n_default net) s (n_chan net) (n_order net) (n_level_order net).
+
+Theorem sim_escalate : forall net s1 s2 target,
+  s1 <> [] -> s2 <> [] -> sim (escalate (with_secondary net s1) target) (escalate (with_secondary net s2) target).
+Proof.
+  intros net s1 s2 target H1 H2. unfold escalate. cbn [with_secondary n_levels n_secondary n_chan].
+  destruct (lookup_level (n_levels net) target) as [p|]; [|apply sim_refl].
+  destruct s1 as [|x1 s1]; [congruence|]. destruct s2 as [|x2 s2]; [congruence|].
+  rewrite !orb_false_r. destruct (negb (lv_escalate_auth p)); [apply sim_refl|].
+  apply sim_send_interactive. constructor; [|constructor; [|constructor]].
+  - repeat split; auto.
+  - repeat split; auto. simpl. discriminate.
+Qed.
+
+Lemma sim_auth_ssh_loop cfg ap pw1 pp1 pw2 pp2 : forall fuel b pc ppc,
+  sim (auth_ssh_loop fuel cfg ap pw1 pp1 b pc ppc) (auth_ssh_loop fuel cfg ap pw2 pp2 b pc ppc).
+Proof.
+  induction fuel as [|f IH]; intros b pc ppc; simpl; [constructor|].
+  constructor; [|intros; apply sim_refl]. intros nb.
+  destruct (ssh_error _); [constructor|]. destruct (rx_match (c_prompt cfg) _); [constructor|].
+  destruct (rx_match (ap_pass ap) _).
+  { destruct (Nat.ltb _ _); [constructor|]. constructor. constructor. apply IH. }
+  destruct (rx_match (ap_passphrase ap) _).
+  { destruct (Nat.ltb _ _); [constructor|]. constructor. constructor. apply IH. }
+  apply IH.
+Qed.
+Theorem sim_auth_ssh : forall cfg ap pw1 pp1 pw2 pp2,
+  sim (auth_ssh cfg ap pw1 pp1) (auth_ssh cfg ap pw2 pp2).
+Proof. intros. apply sim_auth_ssh_loop. Qed.
+
+Lemma sim_auth_telnet_loop cfg ap u1 pw1 u2 pw2 : forall fuel b uc pc,
+  sim (auth_telnet_loop fuel cfg ap u1 pw1 b uc pc) (auth_telnet_loop fuel cfg ap u2 pw2 b uc pc).
+Proof.
+  induction fuel as [|f IH]; intros b uc pc; simpl; [constructor|].
+  constructor; [|intros; apply sim_refl]. intros nb.
+  destruct (rx_match (c_prompt cfg) _); [constructor|].
+  destruct (rx_match (ap_user ap) _).
+  { destruct (Nat.ltb _ _); [constructor|]. constructor. constructor. apply IH. }
+  destruct (rx_match (ap_pass ap) _).
+  { destruct (Nat.ltb _ _); [constructor|]. constructor. constructor. apply IH. }
+  apply IH.
+Qed.
+Theorem sim_auth_telnet : forall cfg ap u1 pw1 u2 pw2,
+  sim (auth_telnet cfg ap u1 pw1) (auth_telnet cfg ap u2 pw2).
+Proof. intros. apply sim_auth_telnet_loop. Qed.
+
+Theorem sim_channel_open_ssh : forall cfg ap pw1 pp1 pw2 pp2,
+  sim (channel_open cfg ap (AuthSSH pw1 pp1)) (channel_open cfg ap (AuthSSH pw2 pp2)).
+Proof. intros. unfold channel_open. apply sim_bind; [apply sim_auth_ssh|]. intros; apply sim_refl. Qed.
+Theorem sim_channel_open_telnet : forall cfg ap u1 pw1 u2 pw2,
+  sim (channel_open cfg ap (AuthTelnet u1 pw1)) (channel_open cfg ap (AuthTelnet u2 pw2)).
+Proof. intros. unfold channel_open. apply sim_bind; [apply sim_auth_telnet|]. intros; apply sim_refl. Qed.
+
+(* the privilege search does not look at the secondary password *)
+Lemma build_path_secondary net s1 s2 : forall fuel cur target steps,
+  build_path fuel (with_secondary net s1) cur target steps = build_path fuel (with_secondary net s2) cur target steps.
+Proof.
+  induction fuel as [|f IH]; intros cur target steps; simpl; auto.
+  destruct (beqb cur target); auto.
+  generalize (n_order net cur (neighbours (n_levels net) cur)).
+  induction l as [|p rest IHl]; auto.
+  destruct (mem_bytes p (steps ++ [cur])); auto. rewrite IH, IHl. reflexivity.
+Qed.
+
+Lemma process_acquire_secondary net s1 s2 cached target prompt :
+  process_acquire (with_secondary net s1) cached target prompt
+  = process_acquire (with_secondary net s2) cached target prompt.
+Proof.
+  unfold process_acquire.
+  change (determine_current (with_secondary net s1) prompt) with (determine_current (with_secondary net s2) prompt).
+  destruct (determine_current (with_secondary net s2) prompt); auto.
+  cbn [with_secondary n_levels]. 
+  match goal with |- (if ?c then _ else _) = _ => destruct c end; auto.
+  rewrite (build_path_secondary net s1 s2). reflexivity.
+Qed.
+
+Lemma sim_acquire_loop net s1 s2 target : s1 <> [] -> s2 <> [] -> forall fuel cached count,
+  sim (acquire_loop fuel (with_secondary net s1) cached target count)
+      (acquire_loop fuel (with_secondary net s2) cached target count).
+Proof.
+  intros H1 H2. induction fuel as [|f IH]; intros cached count; [constructor|].
+  rewrite !acquire_loop_S. apply sim_bind; [apply sim_refl|]. intros prompt.
+  rewrite (process_acquire_secondary net s1 s2).
+  destruct (process_acquire (with_secondary net s2) cached target prompt) as [a cur| |]; try constructor.
+  destruct a.
+  - apply sim_refl.
+  - constructor. apply sim_bind; [apply sim_escalate; auto|]. intros _. cbv zeta.
+    cbn [with_secondary n_levels].
+    destruct (Nat.ltb (2 * length (n_levels net)) (S count)); [constructor | apply IH].
+  - constructor. apply sim_bind; [apply sim_refl|]. intros _. cbv zeta.
+    cbn [with_secondary n_levels].
+    destruct (Nat.ltb (2 * length (n_levels net)) (S count)); [constructor | apply IH].
+Qed.
+
+Theorem sim_acquire_priv : forall net s1 s2 c t,
+  s1 <> [] -> s2 <> [] ->
+  sim (acquire_priv (with_secondary net s1) c t) (acquire_priv (with_secondary net s2) c t).
+Proof.
+  intros net s1 s2 c t H1 H2. unfold acquire_priv. cbn [with_secondary n_levels].
+  destruct (lookup_level (n_levels net) t); [|constructor].
+  apply (sim_acquire_loop net s1 s2 t H1 H2).
+Qed.
+
+Theorem sim_net_send_command : forall net s1 s2 cached cmd o,
+  s1 <> [] -> s2 <> [] ->
+  sim (net_send_command (with_secondary net s1) cached cmd o) (net_send_command (with_secondary net s2) cached cmd o).
+Proof.
+  intros. unfold net_send_command. apply sim_bind; [|intros; apply sim_refl].
+  unfold acquire_default. cbn [with_secondary n_default]. destruct (beqb cached (n_default net)); [constructor|].
+  apply sim_catch; [apply sim_acquire_priv; auto | intros; constructor].
+Qed.
+
+(* what reaches the loggers in a run *)
+Definition vis_log {D R} (s : @sys D R) : list bytes := redact_log (s_wlog s) ++ map snd (s_notes s).
+
+Theorem secret_absent : forall cfg R (p : bytes -> prog R),
+  (forall s1 s2, s1 <> [] -> s2 <> [] -> sim (p s1) (p s2)) ->
+  forall s s' script start sched, s <> [] -> s' <> [] ->
+    let a := run sfeed cfg sched (init_sys script start (p s)) in
+    let b := run sfeed cfg sched (init_sys script start (p s')) in
+    vis_log a = vis_log b
+    /\ ((forall x, In x (vis_log b) -> contains s x = false) ->
+        forall x, In x (vis_log a) -> contains s x = false).
+Proof.
+  intros cfg R p Hp s s' script start sched Hs Hs' a b.
+  destruct (sim_run_sfeed cfg R (p s) (p s') script start sched (Hp s s' Hs Hs')) as [H1 [H2 _]].
+  fold a in H1, H2. fold b in H1, H2.
+  assert (E : vis_log a = vis_log b).
+  { unfold vis_log, redact_log. rewrite H1, H2. reflexivity. }
+  split; auto. intros Hb x Hx. rewrite E in Hx. auto.
+Qed.
+
+(* ====================================================================== *)
+(* E.  C10 — login                                                         *)
+(* ====================================================================== *)
+
+(* what the login loops decide on the buffer accumulated since the last reset *)
+Inductive ssh_class := KErr | KPrompt | KPass | KPassphrase | KNone.
+Definition ssh_cls (cfg : chan_cfg) (ap : auth_pats) (b : bytes) : ssh_class :=
+  if ssh_error b then KErr
+  else if rx_match (c_prompt cfg) b then KPrompt
+  else if rx_match (ap_pass ap) b then KPass
+  else if rx_match (ap_passphrase ap) b then KPassphrase
+  else KNone.
+
+Definition ssh_pats (cfg : chan_cfg) (ap : auth_pats) : list re := [c_prompt cfg; ap_pass ap; ap_passphrase ap].
+
+Definition ssh_k (f : nat) (cfg : chan_cfg) (ap : auth_pats) (pw pp b : bytes) (pc ppc : nat) (nb : bytes) : prog bytes :=
+  match ssh_cls cfg ap (b ++ nb) with
+  | KErr => Fail EConnection
+  | KPrompt => Ret (b ++ nb)
+  | KPass => if Nat.ltb password_seen_max (S pc) then Fail EAuth
+             else Write pw true (Write (c_ret cfg) false (auth_ssh_loop f cfg ap pw pp [] (S pc) ppc))
+  | KPassphrase => if Nat.ltb passphrase_seen_max (S ppc) then Fail EAuth
+                   else Write pp true (Write (c_ret cfg) false (auth_ssh_loop f cfg ap pw pp [] pc (S ppc)))
+  | KNone => auth_ssh_loop f cfg ap pw pp (b ++ nb) pc ppc
+  end.
+
+Lemma ssh_k_eq f cfg ap pw pp b pc ppc nb :
+  (let b := b ++ nb in
+   if ssh_error b then Fail EConnection
+   else if rx_match (c_prompt cfg) b then Ret b
+   else if rx_match (ap_pass ap) b then
+          if Nat.ltb password_seen_max (S pc) then Fail EAuth
+          else Write pw true (Write (c_ret cfg) false (auth_ssh_loop f cfg ap pw pp [] (S pc) ppc))
+   else if rx_match (ap_passphrase ap) b then
+          if Nat.ltb passphrase_seen_max (S ppc) then Fail EAuth
+          else Write pp true (Write (c_ret cfg) false (auth_ssh_loop f cfg ap pw pp [] pc (S ppc)))
+   else auth_ssh_loop f cfg ap pw pp b pc ppc) = ssh_k f cfg ap pw pp b pc ppc nb.
+Proof.
+  unfold ssh_k, ssh_cls. cbv zeta.
+  destruct (ssh_error (b ++ nb)); auto. destruct (rx_match (c_prompt cfg) (b ++ nb)); auto.
+  destruct (rx_match (ap_pass ap) (b ++ nb)); auto. destruct (rx_match (ap_passphrase ap) (b ++ nb)); auto.
+Qed.
+
+Lemma ptrace_ssh_loop_inv cfg f ap pw pp b pc ppc t :
+  ptrace cfg (auth_ssh_loop (S f) cfg ap pw pp b pc ppc) t ->
+  t = [] \/ (exists rb t', t = ORead (CSshAuth b (ssh_pats cfg ap)) rb :: t'
+                           /\ cond_holds cfg (CSshAuth b (ssh_pats cfg ap)) rb = true
+                           /\ ptrace cfg (ssh_k f cfg ap pw pp b pc ppc rb) t')
+  \/ (exists e, t = [OErr (CSshAuth b (ssh_pats cfg ap)) e]).
+Proof.
+  intros H. cbn [auth_ssh_loop] in H. pinv H; auto.
+  - right; left. exists rb, t0. repeat split; auto. rewrite <- ssh_k_eq. exact H.
+  - pinv H. right; right. eauto.
+Qed.
+
+Lemma ctrace_ssh_loop_inv cfg f ap pw pp b pc ppc t r :
+  ctrace cfg (auth_ssh_loop (S f) cfg ap pw pp b pc ppc) t r ->
+  (exists rb t', t = ORead (CSshAuth b (ssh_pats cfg ap)) rb :: t'
+                 /\ cond_holds cfg (CSshAuth b (ssh_pats cfg ap)) rb = true
+                 /\ ctrace cfg (ssh_k f cfg ap pw pp b pc ppc rb) t' r)
+  \/ (exists e, t = [OErr (CSshAuth b (ssh_pats cfg ap)) e] /\ r = inr e).
+Proof.
+  intros H. cbn [auth_ssh_loop] in H. pinv H.
+  - left. exists rb, t0. repeat split; auto. rewrite <- ssh_k_eq. exact H.
+  - pinv H. right. eauto.
+Qed.
+
+(* telnet *)
+Inductive tn_class := TPrompt | TUser | TPass | TNone.
+Definition tn_cls (cfg : chan_cfg) (ap : auth_pats) (b : bytes) : tn_class :=
+  if rx_match (c_prompt cfg) b then TPrompt
+  else if rx_match (ap_user ap) b then TUser
+  else if rx_match (ap_pass ap) b then TPass
+  else TNone.
+Definition tn_pats (cfg : chan_cfg) (ap : auth_pats) : list re := [c_prompt cfg; ap_user ap; ap_pass ap].
+
+Definition tn_k (f : nat) (cfg : chan_cfg) (ap : auth_pats) (user pw b : bytes) (uc pc : nat) (nb : bytes) : prog bytes :=
+  match tn_cls cfg ap (b ++ nb) with
+  | TPrompt => Ret (b ++ nb)
+  | TUser => if Nat.ltb username_seen_max (S uc) then Fail EAuth
+             else Write user true (Write (c_ret cfg) false (auth_telnet_loop f cfg ap user pw [] (S uc) pc))
+  | TPass => if Nat.ltb password_seen_max (S pc) then Fail EAuth
+             else Write pw true (Write (c_ret cfg) false (auth_telnet_loop f cfg ap user pw [] uc (S pc)))
+  | TNone => auth_telnet_loop f cfg ap user pw (b ++ nb) uc pc
+  end.
+
+Lemma tn_k_eq f cfg ap user pw b uc pc nb :
+  (let b := b ++ nb in
+   if rx_match (c_prompt cfg) b then Ret b
+   else if rx_match (ap_user ap) b then
+          if Nat.ltb username_seen_max (S uc) then Fail EAuth
+          else Write user true (Write (c_ret cfg) false (auth_telnet_loop f cfg ap user pw [] (S uc) pc))
+   else if rx_match (ap_pass ap) b then
+          if Nat.ltb password_seen_max (S pc) then Fail EAuth
+          else Write pw true (Write (c_ret cfg) false (auth_telnet_loop f cfg ap user pw [] uc (S pc)))
+   else auth_telnet_loop f cfg ap user pw b uc pc) = tn_k f cfg ap user pw b uc pc nb.
+Proof.
+  unfold tn_k, tn_cls. cbv zeta.
+  destruct (rx_match (c_prompt cfg) (b ++ nb)); auto.
+  destruct (rx_match (ap_user ap) (b ++ nb)); auto. destruct (rx_match (ap_pass ap) (b ++ nb)); auto.
+Qed.
+
+Lemma ptrace_tn_loop_inv cfg f ap user pw b uc pc t :
+  ptrace cfg (auth_telnet_loop (S f) cfg ap user pw b uc pc) t ->
+  t = [] \/ (exists rb t', t = ORead (CAnyPrompt (tn_pats cfg ap)) rb :: t'
+                           /\ cond_holds cfg (CAnyPrompt (tn_pats cfg ap)) rb = true
+                           /\ ptrace cfg (tn_k f cfg ap user pw b uc pc rb) t')
+  \/ (exists e, t = [OErr (CAnyPrompt (tn_pats cfg ap)) e]).
+Proof.
+  intros H. cbn [auth_telnet_loop] in H. pinv H; auto.
+  - right; left. exists rb, t0. repeat split; auto. rewrite <- tn_k_eq. exact H.
+  - pinv H. right; right. eauto.
+Qed.
+
+(* ---------- bounds and redaction ---------- *)
+Lemma count_writes_app b t1 t2 : count_writes b (t1 ++ t2) = (count_writes b t1 + count_writes b t2)%nat.
+Proof. induction t1 as [|o t1 IH]; simpl; auto. destruct o; auto. rewrite IH. lia. Qed.
+
+Lemma creds_redacted_nil ret : creds_redacted ret [].
+Proof. intros b r []. Qed.
+Lemma creds_redacted_cons_other ret o t :
+  (forall b r, o <> OWrite b r) -> creds_redacted ret t -> creds_redacted ret (o :: t).
+Proof. intros Ho H b r [Hin|Hin] Hb; [exfalso; eapply Ho; eauto | eapply H; eauto]. Qed.
+Lemma creds_redacted_cons_red ret b t : creds_redacted ret t -> creds_redacted ret (OWrite b true :: t).
+Proof. intros H b' r [Hin|Hin] Hb; [inversion Hin; auto | eapply H; eauto]. Qed.
+Lemma creds_redacted_cons_ret ret r0 t : creds_redacted ret t -> creds_redacted ret (OWrite ret r0 :: t).
+Proof. intros H b' r [Hin|Hin] Hb; [inversion Hin; subst; congruence | eapply H; eauto]. Qed.
+
+Section SshBounds.
+  Variables (cfg : chan_cfg) (ap : auth_pats) (pw pp : bytes).
+  Hypothesis Hpw : pw <> c_ret cfg.
+  Hypothesis Hpp : pp <> c_ret cfg.
+  Hypothesis Hne : pw <> pp.
+
+  Let P (pc ppc : nat) (t : list obs) : Prop :=
+    ((pc <= password_seen_max)%nat -> (count_writes pw t + pc <= password_seen_max)%nat)
+    /\ ((ppc <= passphrase_seen_max)%nat -> (count_writes pp t + ppc <= passphrase_seen_max)%nat)
+    /\ creds_redacted (c_ret cfg) t.
+
+  Lemma P_nil pc ppc : P pc ppc [].
+  Proof. repeat split; simpl; auto. apply creds_redacted_nil. Qed.
+  Lemma P_nowrite pc ppc o t : (forall b r, o <> OWrite b r) -> P pc ppc t -> P pc ppc (o :: t).
+  Proof.
+    intros Ho [H1 [H2 H3]]. repeat split.
+    - destruct o; simpl; auto. exfalso; eapply Ho; eauto.
+    - destruct o; simpl; auto. exfalso; eapply Ho; eauto.
+    - apply creds_redacted_cons_other; auto.
+  Qed.
+  Lemma P_ret pc ppc t : P pc ppc t -> P pc ppc (OWrite (c_ret cfg) false :: t).
+  Proof.
+    intros [H1 [H2 H3]]. repeat split; simpl.
+    - rewrite (beqb_neq _ _ Hpw). auto.
+    - rewrite (beqb_neq _ _ Hpp). auto.
+    - apply creds_redacted_cons_ret; auto.
+  Qed.
+  Lemma P_pw pc ppc t : (S pc <= password_seen_max)%nat -> P (S pc) ppc t -> P pc ppc (OWrite pw true :: t).
+  Proof.
+    intros Hle [H1 [H2 H3]]. repeat split; simpl.
+    - rewrite beqb_refl. intros _. specialize (H1 Hle). lia.
+    - rewrite (beqb_neq pp pw); auto.
+    - apply creds_redacted_cons_red; auto.
+  Qed.
+  Lemma P_pp pc ppc t : (S ppc <= passphrase_seen_max)%nat -> P pc (S ppc) t -> P pc ppc (OWrite pp true :: t).
+  Proof.
+    intros Hle [H1 [H2 H3]]. repeat split; simpl.
+    - rewrite (beqb_neq pw pp); auto.
+    - rewrite beqb_refl. intros _. specialize (H2 Hle). lia.
+    - apply creds_redacted_cons_red; auto.
+  Qed.
+
+  Lemma auth_ssh_loop_bounds : forall fuel b pc ppc t,
+    ptrace cfg (auth_ssh_loop fuel cfg ap pw pp b pc ppc) t -> P pc ppc t.
+  Proof.
+    induction fuel as [|f IH]; intros b pc ppc t H.
+    - simpl in H. pinv H. apply P_nil.
+    - apply ptrace_ssh_loop_inv in H. destruct H as [->|[[rb [t' [-> [Hc H]]]]|[e ->]]].
+      + apply P_nil.
+      + apply P_nowrite; [discriminate|]. unfold ssh_k in H.
+        destruct (ssh_cls cfg ap (b ++ rb)).
+        * pinv H. apply P_nil.
+        * pinv H. apply P_nil.
+        * destruct (Nat.ltb password_seen_max (S pc)) eqn:El; [pinv H; apply P_nil|].
+          apply Nat.ltb_ge in El.
+          pinv H; [apply P_nil|]. apply P_pw; auto.
+          pinv H; [apply P_nil|]. apply P_ret. eapply IH; eauto.
+        * destruct (Nat.ltb passphrase_seen_max (S ppc)) eqn:El; [pinv H; apply P_nil|].
+          apply Nat.ltb_ge in El.
+          pinv H; [apply P_nil|]. apply P_pp; auto.
+          pinv H; [apply P_nil|]. apply P_ret. eapply IH; eauto.
+        * eapply IH; eauto.
+      + apply P_nowrite; [discriminate|]. apply P_nil.
+  Qed.
+End SshBounds.
+
+Theorem auth_ssh_bounds : forall cfg ap pw pp t,
+  pw <> c_ret cfg -> pp <> c_ret cfg -> pw <> pp ->
+  ptrace cfg (auth_ssh cfg ap pw pp) t ->
+  (count_writes pw t <= password_seen_max)%nat /\ (count_writes pp t <= passphrase_seen_max)%nat
+  /\ creds_redacted (c_ret cfg) t.
+Proof.
+  intros cfg ap pw pp t H1 H2 H3 H.
+  destruct (auth_ssh_loop_bounds cfg ap pw pp H1 H2 H3 _ _ _ _ _ H) as [A [B C]].
+  repeat split; auto.
+  - specialize (A (Nat.le_0_l _)). lia.
+  - specialize (B (Nat.le_0_l _)). lia.
+Qed.
+
+Section TelnetBounds.
+  Variables (cfg : chan_cfg) (ap : auth_pats) (user pw : bytes).
+  Hypothesis Hu : user <> c_ret cfg.
+  Hypothesis Hpw : pw <> c_ret cfg.
+  Hypothesis Hne : user <> pw.
+
+  Let P (uc pc : nat) (t : list obs) : Prop :=
+    ((uc <= username_seen_max)%nat -> (count_writes user t + uc <= username_seen_max)%nat)
+    /\ ((pc <= password_seen_max)%nat -> (count_writes pw t + pc <= password_seen_max)%nat)
+    /\ creds_redacted (c_ret cfg) t.
+
+  Lemma Pt_nil uc pc : P uc pc [].
+  Proof. repeat split; simpl; auto. apply creds_redacted_nil. Qed.
+  Lemma Pt_nowrite uc pc o t : (forall b r, o <> OWrite b r) -> P uc pc t -> P uc pc (o :: t).
+  Proof.
+    intros Ho [H1 [H2 H3]]. repeat split.
+    - destruct o; simpl; auto. exfalso; eapply Ho; eauto.
+    - destruct o; simpl; auto. exfalso; eapply Ho; eauto.
+    - apply creds_redacted_cons_other; auto.
+  Qed.
+  Lemma Pt_ret uc pc t : P uc pc t -> P uc pc (OWrite (c_ret cfg) false :: t).
+  Proof.
+    intros [H1 [H2 H3]]. repeat split; simpl.
+    - rewrite (beqb_neq _ _ Hu). auto.
+    - rewrite (beqb_neq _ _ Hpw). auto.
+    - apply creds_redacted_cons_ret; auto.
+  Qed.
+  Lemma Pt_user uc pc t : (S uc <= username_seen_max)%nat -> P (S uc) pc t -> P uc pc (OWrite user true :: t).
+  Proof.
+    intros Hle [H1 [H2 H3]]. repeat split; simpl.
+    - rewrite beqb_refl. intros _. specialize (H1 Hle). lia.
+    - rewrite (beqb_neq pw user); auto.
+    - apply creds_redacted_cons_red; auto.
+  Qed.
+  Lemma Pt_pw uc pc t : (S pc <= password_seen_max)%nat -> P uc (S pc) t -> P uc pc (OWrite pw true :: t).
+  Proof.
+    intros Hle [H1 [H2 H3]]. repeat split; simpl.
+    - rewrite (beqb_neq user pw); auto.
+    - rewrite beqb_refl. intros _. specialize (H2 Hle). lia.
+    - apply creds_redacted_cons_red; auto.
+  Qed.
+
+  Lemma auth_telnet_loop_bounds : forall fuel b uc pc t,
+    ptrace cfg (auth_telnet_loop fuel cfg ap user pw b uc pc) t -> P uc pc t.
+  Proof.
+    induction fuel as [|f IH]; intros b uc pc t H.
+    - simpl in H. pinv H. apply Pt_nil.
+    - apply ptrace_tn_loop_inv in H. destruct H as [->|[[rb [t' [-> [Hc H]]]]|[e ->]]].
+      + apply Pt_nil.
+      + apply Pt_nowrite; [discriminate|]. unfold tn_k in H.
+        destruct (tn_cls cfg ap (b ++ rb)).
+        * pinv H. apply Pt_nil.
+        * destruct (Nat.ltb username_seen_max (S uc)) eqn:El; [pinv H; apply Pt_nil|].
+          apply Nat.ltb_ge in El.
+          pinv H; [apply Pt_nil|]. apply Pt_user; auto.
+          pinv H; [apply Pt_nil|]. apply Pt_ret. eapply IH; eauto.
+        * destruct (Nat.ltb password_seen_max (S pc)) eqn:El; [pinv H; apply Pt_nil|].
+          apply Nat.ltb_ge in El.
+          pinv H; [apply Pt_nil|]. apply Pt_pw; auto.
+          pinv H; [apply Pt_nil|]. apply Pt_ret. eapply IH; eauto.
+        * eapply IH; eauto.
+      + apply Pt_nowrite; [discriminate|]. apply Pt_nil.
+  Qed.
+End TelnetBounds.
+
+Theorem auth_telnet_bounds : forall cfg ap user pw t,
+  user <> c_ret cfg -> pw <> c_ret cfg -> user <> pw ->
+  ptrace cfg (auth_telnet cfg ap user pw) t ->
+  (count_writes user t <= username_seen_max)%nat /\ (count_writes pw t <= password_seen_max)%nat
+  /\ creds_redacted (c_ret cfg) t.
+Proof.
+  intros cfg ap user pw t H1 H2 H3 H.
+  destruct (auth_telnet_loop_bounds cfg ap user pw H1 H2 H3 _ _ _ _ _ H) as [A [B C]].
+  repeat split; auto.
+  - specialize (A (Nat.le_0_l _)). lia.
+  - specialize (B (Nat.le_0_l _)). lia.
+Qed.
+
+(* ---------- credentials only as answers ---------- *)
+(* bytes read since the last observation that was not a read (the login loops reset their buffer
+   exactly when they write) *)
+Fixpoint tail_reads_from (acc : bytes) (t : list obs) : bytes :=
+  match t with
+  | [] => acc
+  | ORead _ rb :: r => tail_reads_from (acc ++ rb) r
+  | _ :: r => tail_reads_from [] r
+  end.
+
+Lemma tail_reads_from_snoc_read acc t c rb :
+  tail_reads_from acc (t ++ [ORead c rb]) = tail_reads_from acc t ++ rb.
+Proof. revert acc; induction t as [|o t IH]; intros acc; simpl; auto. destruct o; auto. Qed.
+
+(* CORRECTED [answered_only] (ChanTrace.answered_only tests the pattern on the last read buffer [rb]
+   alone and does not constrain the head of the trace; the loops test the buffer accumulated since
+   the last reset).  [ans cred ok acc armed t]: along [t], started with [acc] already read since the
+   last reset, [cred] is written only when [armed], and a write is armed only by an immediately
+   preceding read-until [ORead c rb] such that [ok (accumulated ++ rb) c rb]. *)
+Section Answered.
+  Variable cred : bytes.
+  Variable ok : bytes -> cond -> bytes -> Prop.
+
+  Inductive ans : bytes -> Prop -> list obs -> Prop :=
+  | ans_nil acc a : ans acc a []
+  | ans_cred acc (a : Prop) r t : a -> ans [] False t -> ans acc a (OWrite cred r :: t)
+  | ans_write acc a b r t : b <> cred -> ans [] False t -> ans acc a (OWrite b r :: t)
+  | ans_read acc a c rb t : ans (acc ++ rb) (ok (acc ++ rb) c rb) t -> ans acc a (ORead c rb :: t)
+  | ans_err acc a c e t : ans [] False t -> ans acc a (OErr c e :: t)
+  | ans_note acc a tg d t : ans [] False t -> ans acc a (ONote tg d :: t)
+  | ans_requeue acc a b t : ans [] False t -> ans acc a (ORequeue b :: t).
+
+  Definition answered_only' (t : list obs) : Prop := ans [] False t.
+
+  (* what it means: every write of the credential is immediately preceded by a read-until that
+     returned with [ok] on the accumulated buffer *)
+  Lemma ans_spec : forall t acc a, ans acc a t ->
+    forall t1 r t2, t = t1 ++ OWrite cred r :: t2 ->
+      (t1 = [] /\ a) \/ (exists t0 c rb, t1 = t0 ++ [ORead c rb] /\ ok (tail_reads_from acc t1) c rb).
+  Proof.
+    induction 1; intros t1 r0 t2 E.
+    - destruct t1; discriminate.
+    - destruct t1 as [|o t1]; [left; auto|]. inversion E; subst.
+      destruct (IHans _ _ _ eq_refl) as [[_ []]|[t0 [c [rb [E1 E2]]]]].
+      right. exists (OWrite cred r :: t0), c, rb. rewrite E1. split; auto. rewrite E1 in E2. exact E2.
+    - destruct t1 as [|o t1]; [inversion E; congruence|]. inversion E; subst.
+      destruct (IHans _ _ _ eq_refl) as [[_ []]|[t0 [c [rb [E1 E2]]]]].
+      right. exists (OWrite b r :: t0), c, rb. rewrite E1. split; auto. rewrite E1 in E2. exact E2.
+    - destruct t1 as [|o t1]; [discriminate|]. inversion E; subst.
+      destruct (IHans _ _ _ eq_refl) as [[-> Ha]|[t0 [c0 [rb0 [E1 E2]]]]].
+      + right. exists [], c, rb. split; auto.
+      + right. exists (ORead c rb :: t0), c0, rb0. rewrite E1. split; auto. rewrite E1 in E2. exact E2.
+    - destruct t1 as [|o t1]; [discriminate|]. inversion E; subst.
+      destruct (IHans _ _ _ eq_refl) as [[_ []]|[t0 [c0 [rb [E1 E2]]]]].
+      right. exists (OErr c e :: t0), c0, rb. rewrite E1. split; auto. rewrite E1 in E2. exact E2.
+    - destruct t1 as [|o t1]; [discriminate|]. inversion E; subst.
+      destruct (IHans _ _ _ eq_refl) as [[_ []]|[t0 [c0 [rb [E1 E2]]]]].
+      right. exists (ONote tg d :: t0), c0, rb. rewrite E1. split; auto. rewrite E1 in E2. exact E2.
+    - destruct t1 as [|o t1]; [discriminate|]. inversion E; subst.
+      destruct (IHans _ _ _ eq_refl) as [[_ []]|[t0 [c0 [rb [E1 E2]]]]].
+      right. exists (ORequeue b :: t0), c0, rb. rewrite E1. split; auto. rewrite E1 in E2. exact E2.
+  Qed.
+
+  Theorem answered_only'_spec : forall t, answered_only' t ->
+    forall t1 r t2, t = t1 ++ OWrite cred r :: t2 ->
+      exists t0 c rb, t1 = t0 ++ [ORead c rb] /\ ok (tail_reads_from [] t1) c rb.
+  Proof.
+    intros t H t1 r t2 E. destruct (ans_spec t [] False H t1 r t2 E) as [[_ []]|X]; auto.
+  Qed.
+End Answered.
+
+(* when the ssh login may answer with the password / the passphrase: [acc] is the accumulated
+   buffer, which is [prefix ++ rb] for the prefix carried by the condition *)
+Definition ssh_pw_ok (cfg : chan_cfg) (ap : auth_pats) (acc : bytes) (c : cond) (rb : bytes) : Prop :=
+  exists prefix, c = CSshAuth prefix (ssh_pats cfg ap) /\ acc = prefix ++ rb
+    /\ ssh_error (prefix ++ rb) = false /\ rx_match (c_prompt cfg) (prefix ++ rb) = false
+    /\ rx_match (ap_pass ap) (prefix ++ rb) = true.
+Definition ssh_pp_ok (cfg : chan_cfg) (ap : auth_pats) (acc : bytes) (c : cond) (rb : bytes) : Prop :=
+  exists prefix, c = CSshAuth prefix (ssh_pats cfg ap) /\ acc = prefix ++ rb
+    /\ ssh_error (prefix ++ rb) = false /\ rx_match (c_prompt cfg) (prefix ++ rb) = false
+    /\ rx_match (ap_pass ap) (prefix ++ rb) = false /\ rx_match (ap_passphrase ap) (prefix ++ rb) = true.
+
+Lemma ssh_cls_pass cfg ap b : ssh_cls cfg ap b = KPass ->
+  ssh_error b = false /\ rx_match (c_prompt cfg) b = false /\ rx_match (ap_pass ap) b = true.
+Proof.
+  unfold ssh_cls. destruct (ssh_error b); [discriminate|]. destruct (rx_match (c_prompt cfg) b); [discriminate|].
+  destruct (rx_match (ap_pass ap) b); auto. destruct (rx_match (ap_passphrase ap) b); discriminate.
+Qed.
+Lemma ssh_cls_passphrase cfg ap b : ssh_cls cfg ap b = KPassphrase ->
+  ssh_error b = false /\ rx_match (c_prompt cfg) b = false /\ rx_match (ap_pass ap) b = false
+  /\ rx_match (ap_passphrase ap) b = true.
+Proof.
+  unfold ssh_cls. destruct (ssh_error b); [discriminate|]. destruct (rx_match (c_prompt cfg) b); [discriminate|].
+  destruct (rx_match (ap_pass ap) b); [discriminate|]. destruct (rx_match (ap_passphrase ap) b); auto. discriminate.
+Qed.
+Lemma ssh_cls_prompt cfg ap b : ssh_cls cfg ap b = KPrompt ->
+  ssh_error b = false /\ rx_match (c_prompt cfg) b = true.
+Proof.
+  unfold ssh_cls. destruct (ssh_error b); [discriminate|]. destruct (rx_match (c_prompt cfg) b); auto.
+  destruct (rx_match (ap_pass ap) b); [discriminate|]. destruct (rx_match (ap_passphrase ap) b); discriminate.
+Qed.
+Lemma ssh_cls_err cfg ap b : ssh_cls cfg ap b = KErr <-> ssh_error b = true.
+Proof.
+  unfold ssh_cls. destruct (ssh_error b); [tauto|]. destruct (rx_match (c_prompt cfg) b); [split; discriminate|].
+  destruct (rx_match (ap_pass ap) b); [split; discriminate|]. destruct (rx_match (ap_passphrase ap) b); split; discriminate.
+Qed.
+
+Section SshAnswers.
+  Variables (cfg : chan_cfg) (ap : auth_pats) (pw pp : bytes).
+  Hypothesis Hpw : pw <> c_ret cfg.
+  Hypothesis Hpp : pp <> c_ret cfg.
+  Hypothesis Hne : pw <> pp.
+
+  Lemma auth_ssh_loop_answers_pw : forall fuel b pc ppc t a,
+    ptrace cfg (auth_ssh_loop fuel cfg ap pw pp b pc ppc) t -> ans pw (ssh_pw_ok cfg ap) b a t.
+  Proof.
+    induction fuel as [|f IH]; intros b pc ppc t a H.
+    - simpl in H. pinv H. constructor.
+    - apply ptrace_ssh_loop_inv in H. destruct H as [->|[[rb [t' [-> [Hc H]]]]|[e ->]]].
+      + constructor.
+      + apply ans_read. unfold ssh_k in H. destruct (ssh_cls cfg ap (b ++ rb)) eqn:K.
+        * pinv H. constructor.
+        * pinv H. constructor.
+        * destruct (Nat.ltb password_seen_max (S pc)); [pinv H; constructor|].
+          pinv H; [constructor|]. apply ans_cred.
+          { apply ssh_cls_pass in K. destruct K as [K1 [K2 K3]]. exists b. repeat split; assumption. }
+          pinv H; [constructor|]. apply ans_write; auto. eapply IH; eauto.
+        * destruct (Nat.ltb passphrase_seen_max (S ppc)); [pinv H; constructor|].
+          pinv H; [constructor|]. apply ans_write; auto.
+          pinv H; [constructor|]. apply ans_write; auto. eapply IH; eauto.
+        * eapply IH; eauto.
+      + apply ans_err. constructor.
+  Qed.
+
+  Lemma auth_ssh_loop_answers_pp : forall fuel b pc ppc t a,
+    ptrace cfg (auth_ssh_loop fuel cfg ap pw pp b pc ppc) t -> ans pp (ssh_pp_ok cfg ap) b a t.
+  Proof.
+    induction fuel as [|f IH]; intros b pc ppc t a H.
+    - simpl in H. pinv H. constructor.
+    - apply ptrace_ssh_loop_inv in H. destruct H as [->|[[rb [t' [-> [Hc H]]]]|[e ->]]].
+      + constructor.
+      + apply ans_read. unfold ssh_k in H. destruct (ssh_cls cfg ap (b ++ rb)) eqn:K.
+        * pinv H. constructor.
+        * pinv H. constructor.
+        * destruct (Nat.ltb password_seen_max (S pc)); [pinv H; constructor|].
+          pinv H; [constructor|]. apply ans_write; auto.
+          pinv H; [constructor|]. apply ans_write; auto. eapply IH; eauto.
+        * destruct (Nat.ltb passphrase_seen_max (S ppc)); [pinv H; constructor|].
+          pinv H; [constructor|]. apply ans_cred.
+          { apply ssh_cls_passphrase in K. destruct K as [K1 [K2 [K3 K4]]]. exists b. repeat split; assumption. }
+          pinv H; [constructor|]. apply ans_write; auto. eapply IH; eauto.
+        * eapply IH; eauto.
+      + apply ans_err. constructor.
+  Qed.
+End SshAnswers.
+
+Theorem auth_ssh_answers : forall cfg ap pw pp t,
+  pw <> c_ret cfg -> pp <> c_ret cfg -> pw <> pp ->
+  ptrace cfg (auth_ssh cfg ap pw pp) t ->
+  answered_only' pw (ssh_pw_ok cfg ap) t /\ answered_only' pp (ssh_pp_ok cfg ap) t.
+Proof.
+  intros cfg ap pw pp t H1 H2 H3 H. split.
+  - eapply auth_ssh_loop_answers_pw; eauto.
+  - eapply auth_ssh_loop_answers_pp; eauto.
+Qed.
+
+(* the statement unfolded: the observation before any password write *)
+Corollary auth_ssh_password_answers : forall cfg ap pw pp t t1 r t2,
+  pw <> c_ret cfg -> pp <> c_ret cfg -> pw <> pp ->
+  ptrace cfg (auth_ssh cfg ap pw pp) t -> t = t1 ++ OWrite pw r :: t2 ->
+  exists t0 prefix rb, t1 = t0 ++ [ORead (CSshAuth prefix (ssh_pats cfg ap)) rb]
+    /\ tail_reads_from [] t1 = prefix ++ rb
+    /\ ssh_error (prefix ++ rb) = false /\ rx_match (c_prompt cfg) (prefix ++ rb) = false
+    /\ rx_match (ap_pass ap) (prefix ++ rb) = true.
+Proof.
+  intros cfg ap pw pp t t1 r t2 H1 H2 H3 H E.
+  destruct (auth_ssh_answers cfg ap pw pp t H1 H2 H3 H) as [A _].
+  destruct (answered_only'_spec _ _ _ A _ _ _ E) as [t0 [c [rb [E1 [prefix [-> [X1 [X2 [X3 X4]]]]]]]]].
+  exists t0, prefix, rb. repeat split; assumption.
+Qed.
+
+Corollary auth_ssh_passphrase_answers : forall cfg ap pw pp t t1 r t2,
+  pw <> c_ret cfg -> pp <> c_ret cfg -> pw <> pp ->
+  ptrace cfg (auth_ssh cfg ap pw pp) t -> t = t1 ++ OWrite pp r :: t2 ->
+  exists t0 prefix rb, t1 = t0 ++ [ORead (CSshAuth prefix (ssh_pats cfg ap)) rb]
+    /\ tail_reads_from [] t1 = prefix ++ rb
+    /\ ssh_error (prefix ++ rb) = false /\ rx_match (c_prompt cfg) (prefix ++ rb) = false
+    /\ rx_match (ap_pass ap) (prefix ++ rb) = false /\ rx_match (ap_passphrase ap) (prefix ++ rb) = true.
+Proof.
+  intros cfg ap pw pp t t1 r t2 H1 H2 H3 H E.
+  destruct (auth_ssh_answers cfg ap pw pp t H1 H2 H3 H) as [_ A].
+  destruct (answered_only'_spec _ _ _ A _ _ _ E) as [t0 [c [rb [E1 [prefix [-> [X1 [X2 [X3 [X4 X5]]]]]]]]]].
+  exists t0, prefix, rb. repeat split; assumption.
+Qed.
+
+(* telnet: the condition carries no prefix; the tests are on the accumulated buffer *)
+Definition tn_user_ok (cfg : chan_cfg) (ap : auth_pats) (acc : bytes) (c : cond) (rb : bytes) : Prop :=
+  c = CAnyPrompt (tn_pats cfg ap) /\ rx_match (c_prompt cfg) acc = false /\ rx_match (ap_user ap) acc = true.
+Definition tn_pw_ok (cfg : chan_cfg) (ap : auth_pats) (acc : bytes) (c : cond) (rb : bytes) : Prop :=
+  c = CAnyPrompt (tn_pats cfg ap) /\ rx_match (c_prompt cfg) acc = false /\ rx_match (ap_user ap) acc = false
+  /\ rx_match (ap_pass ap) acc = true.
+
+Lemma tn_cls_user cfg ap b : tn_cls cfg ap b = TUser ->
+  rx_match (c_prompt cfg) b = false /\ rx_match (ap_user ap) b = true.
+Proof.
+  unfold tn_cls. destruct (rx_match (c_prompt cfg) b); [discriminate|].
+  destruct (rx_match (ap_user ap) b); auto. destruct (rx_match (ap_pass ap) b); discriminate.
+Qed.
+Lemma tn_cls_pass cfg ap b : tn_cls cfg ap b = TPass ->
+  rx_match (c_prompt cfg) b = false /\ rx_match (ap_user ap) b = false /\ rx_match (ap_pass ap) b = true.
+Proof.
+  unfold tn_cls. destruct (rx_match (c_prompt cfg) b); [discriminate|].
+  destruct (rx_match (ap_user ap) b); [discriminate|]. destruct (rx_match (ap_pass ap) b); auto. discriminate.
+Qed.
+
+Section TelnetAnswers.
+  Variables (cfg : chan_cfg) (ap : auth_pats) (user pw : bytes).
+  Hypothesis Hu : user <> c_ret cfg.
+  Hypothesis Hpw : pw <> c_ret cfg.
+  Hypothesis Hne : user <> pw.
+
+  Lemma auth_telnet_loop_answers_user : forall fuel b uc pc t a,
+    ptrace cfg (auth_telnet_loop fuel cfg ap user pw b uc pc) t -> ans user (tn_user_ok cfg ap) b a t.
+  Proof.
+    induction fuel as [|f IH]; intros b uc pc t a H.
+    - simpl in H. pinv H. constructor.
+    - apply ptrace_tn_loop_inv in H. destruct H as [->|[[rb [t' [-> [Hc H]]]]|[e ->]]].
+      + constructor.
+      + apply ans_read. unfold tn_k in H. destruct (tn_cls cfg ap (b ++ rb)) eqn:K.
+        * pinv H. constructor.
+        * destruct (Nat.ltb username_seen_max (S uc)); [pinv H; constructor|].
+          pinv H; [constructor|]. apply ans_cred.
+          { apply tn_cls_user in K. destruct K as [K1 K2]. repeat split; assumption. }
+          pinv H; [constructor|]. apply ans_write; auto. eapply IH; eauto.
+        * destruct (Nat.ltb password_seen_max (S pc)); [pinv H; constructor|].
+          pinv H; [constructor|]. apply ans_write; auto.
+          pinv H; [constructor|]. apply ans_write; auto. eapply IH; eauto.
+        * eapply IH; eauto.
+      + apply ans_err. constructor.
+  Qed.
+
+  Lemma auth_telnet_loop_answers_pw : forall fuel b uc pc t a,
+    ptrace cfg (auth_telnet_loop fuel cfg ap user pw b uc pc) t -> ans pw (tn_pw_ok cfg ap) b a t.
+  Proof.
+    induction fuel as [|f IH]; intros b uc pc t a H.
+    - simpl in H. pinv H. constructor.
+    - apply ptrace_tn_loop_inv in H. destruct H as [->|[[rb [t' [-> [Hc H]]]]|[e ->]]].
+      + constructor.
+      + apply ans_read. unfold tn_k in H. destruct (tn_cls cfg ap (b ++ rb)) eqn:K.
+        * pinv H. constructor.
+        * destruct (Nat.ltb username_seen_max (S uc)); [pinv H; constructor|].
+          pinv H; [constructor|]. apply ans_write; auto.
+          pinv H; [constructor|]. apply ans_write; auto. eapply IH; eauto.
+        * destruct (Nat.ltb password_seen_max (S pc)); [pinv H; constructor|].
+          pinv H; [constructor|]. apply ans_cred.
+          { apply tn_cls_pass in K. destruct K as [K1 [K2 K3]]. repeat split; assumption. }
+          pinv H; [constructor|]. apply ans_write; auto. eapply IH; eauto.
+        * eapply IH; eauto.
+      + apply ans_err. constructor.
+  Qed.
+End TelnetAnswers.
+
+Theorem auth_telnet_answers : forall cfg ap user pw t,
+  user <> c_ret cfg -> pw <> c_ret cfg -> user <> pw ->
+  ptrace cfg (auth_telnet cfg ap user pw) t ->
+  answered_only' user (tn_user_ok cfg ap) t /\ answered_only' pw (tn_pw_ok cfg ap) t.
+Proof.
+  intros cfg ap user pw t H1 H2 H3 H. split.
+  - eapply auth_telnet_loop_answers_user; eauto.
+  - eapply auth_telnet_loop_answers_pw; eauto.
 Qed.
